@@ -1734,7 +1734,13 @@ linalg = _Linalg()
 
 
 class _Random(object):
-    pass
+    def __getattr__(self, name):
+        if name.startswith("__"):
+            raise AttributeError(name)
+
+        def f(*a, **k):
+            raise Unsupported("numpy.random.%s reached (pass a stub generator)" % name)
+        return f
 
 
 random = _Random()
